@@ -75,6 +75,7 @@ type lkNode struct {
 	nodes6    bool   // also returns its list in nodes6 (as v4-mapped garbage is not possible: sends real v6-format entries)
 	genuine   bool   // (getput) the item is a genuine one
 	flavour   string // description of the item
+	form      string // how the address is handed to the server: "" = 4-byte IPv4, "mapped" = 16-byte IPv4-mapped, "v6" = real IPv6
 }
 
 type lkCase struct {
@@ -91,6 +92,7 @@ type lkCase struct {
 	pub      ed25519.PublicKey
 	priv     ed25519.PrivateKey
 	mutable  bool
+	seqArg   *int64 // getput.Get's "only if newer than" argument
 	putValue string
 	nodes    []*lkNode
 	start    []int
@@ -218,9 +220,18 @@ func (st *lkState) replyFor(q *lkQuery) []byte {
 		ret.Values = n.values
 	}
 	var nis krpc.CompactIPv4NodeInfo
+	var nis6 krpc.CompactIPv6NodeInfo
 	for _, i := range n.lists {
 		o := st.c.nodes[i]
-		nis = append(nis, krpc.NodeInfo{ID: o.id, Addr: krpc.NodeAddr{IP: o.addr.IP.To4(), Port: o.addr.Port}})
+		if o.form == "" {
+			nis = append(nis, krpc.NodeInfo{ID: o.id, Addr: krpc.NodeAddr{IP: o.addr.IP.To4(), Port: o.addr.Port}})
+		} else {
+			// 16-byte forms travel in nodes6: real IPv6 nodes, and IPv4 nodes some remote lists v4-mapped
+			nis6 = append(nis6, krpc.NodeInfo{ID: o.id, Addr: krpc.NodeAddr{IP: o.addr.IP.To16(), Port: o.addr.Port}})
+		}
+	}
+	if nis6 != nil {
+		ret.Nodes6 = nis6
 	}
 	for g := 0; g < n.ghosts; g++ {
 		var gid [20]byte
@@ -329,7 +340,16 @@ func lkStableGoroutines() int {
 	return last
 }
 
-func addrTok(a *net.UDPAddr) string { return fmt.Sprintf("%s:%d", hx(a.IP.To4()), a.Port) }
+// ipHex: the canonical form of an address for the model (an IPv4 address is the same node whether the code holds
+// it in 4 or in 16 bytes)
+func ipHex(ip net.IP) string {
+	if v4 := ip.To4(); v4 != nil {
+		return hx(v4)
+	}
+	return hx(ip.To16())
+}
+
+func addrTok(a *net.UDPAddr) string { return fmt.Sprintf("%s:%d", ipHex(a.IP), a.Port) }
 
 // ---------------------------------------------------------------- one case
 
@@ -512,7 +532,7 @@ func runLookupOnce(c *lkCase, rep int, report bool) (*lkState, lkResult) {
 				stopped := false
 				for pv := range a.Peers {
 					st.mu.Lock()
-					st.peers = append(st.peers, fmt.Sprintf("%s:%d|%s|%s", hx(pv.NodeInfo.Addr.IP.To4()), pv.NodeInfo.Addr.Port, hx(pv.NodeInfo.ID[:]), dumpReturn(&pv.Return)))
+					st.peers = append(st.peers, fmt.Sprintf("%s:%d|%s|%s", ipHex(pv.NodeInfo.Addr.IP), pv.NodeInfo.Addr.Port, hx(pv.NodeInfo.ID[:]), dumpReturn(&pv.Return)))
 					st.mu.Unlock()
 					atomic.AddInt64(&st.nDeliv, 1)
 					n++
@@ -535,7 +555,7 @@ func runLookupOnce(c *lkCase, rep int, report bool) (*lkState, lkResult) {
 			if c.mutable {
 				saltArg = c.salt
 			}
-			ret, _, err := getput.Get(ctx, c.target, s, nil, saltArg)
+			ret, _, err := getput.Get(ctx, c.target, s, c.seqArg, saltArg)
 			res.getRet, res.err = ret, err
 			close(apiDone)
 		}()
@@ -976,6 +996,26 @@ func (st *lkState) oracles(res *lkResult) {
 			return
 		}
 		g := res.getRet
+		// the result must BE one of the genuine items some node actually returned (never a fabricated one, e.g. one
+		// carrying the caller's own seq argument and no value)
+		isReturned := false
+		for _, n := range c.nodes {
+			if n.genuine && n.item != nil && st.served[n.addr.String()] > 0 && bytes.Equal(n.item.v, g.V) {
+				if !g.Mutable && n.item.k == nil {
+					isReturned = true
+				}
+				if g.Mutable && n.item.seq != nil && *n.item.seq == g.Seq && n.item.sig != nil && *n.item.sig == g.Sig {
+					isReturned = true
+				}
+			}
+		}
+		if !isReturned {
+			sa := "-"
+			if c.seqArg != nil {
+				sa = fmt.Sprint(*c.seqArg)
+			}
+			oracle("C12", "client-returned-unvouched-result", "Get(seq=%s) returned seq=%d mutable=%v v=%s, which no node returned as a genuine item: %s", sa, g.Seq, g.Mutable, hx(g.V), tag)
+		}
 		if g.Mutable {
 			if !ed25519.Verify(c.pub, refBufferToSign(c.salt, g.V, g.Seq), g.Sig[:]) || !c.mutable {
 				oracle("C12", "client-accepted-forged-value", "Get returned mutable seq=%d v=%s which does not verify under the requested key: %s", g.Seq, hx(g.V), tag)
@@ -1217,6 +1257,30 @@ func lookupCases(seed uint64, tier string) []lkCase {
 		}
 	}
 
+	// ---- announce: the same network handed over in mixed address representations: 4-byte IPv4, 16-byte
+	// IPv4-mapped (what net.ResolveUDPAddr gives for an IPv4 host; also remotes that list IPv4 nodes in nodes6),
+	// real IPv6.  Every node appears under ONE form only.  Each must get its OWN token back. ----
+	for ni := 0; ni < 4; ni++ {
+		r := root.sub(2900 + ni)
+		n := 6 + r.intn(6)
+		target := mkTarget(r)
+		nodes := genNet(r, n, target)
+		for i, nd := range nodes {
+			switch (i + ni) % 3 {
+			case 1:
+				nd.form = "mapped"
+				nd.addr = &net.UDPAddr{IP: nd.addr.IP.To16(), Port: nd.addr.Port}
+			case 2:
+				nd.form = "v6"
+				nd.addr = &net.UDPAddr{IP: net.ParseIP(fmt.Sprintf("2001:db8:%x::%x", ni+1, i+1)), Port: nd.addr.Port}
+			}
+		}
+		start := []int{0, 1, 2}
+		opt := optsList[ni%3]
+		add(lkCase{api: "announce", sn: "ok", target: target, annOpts: opt.opts, annPort: opt.port, annImp: opt.imp, scrape: opt.scrape,
+			viaTrav: ni%2 == 1, nodes: nodes, start: start, stopAt: -1, consStop: -1, desc: fmt.Sprintf("mixed-address-forms-%d-%s", ni, opt.name)})
+	}
+
 	// ---- bootstrap ----
 	for ni := 0; ni < nets; ni++ {
 		r := root.sub(3000 + ni)
@@ -1366,6 +1430,49 @@ func lookupCases(seed uint64, tier string) []lkCase {
 			}
 			add(lkCase{api: "get", sn: "ok", target: it, nodes: nodes, start: []int{0}, stopAt: -1, consStop: -1, desc: fmt.Sprintf("immutable-net%d", ni)})
 		}
+	}
+	// ---- getput.Get with a non-nil "only if newer than seq" argument: nodes that ignore it and return a genuine
+	// value with a LOWER seq, nodes that return a seq and nothing else, nodes that honour it (token only), a newer
+	// genuine value or none: the caller gets the highest-seq verified value actually returned, or not-found ----
+	for ni := 0; ni < 6; ni++ {
+		r := root.sub(4500 + ni)
+		pub, priv, _ := ed25519.GenerateKey(bytes.NewReader(r.bytes(64)))
+		salt := [][]byte{nil, []byte("s")}[ni%2]
+		target := sha1.Sum(append(append([]byte(nil), pub...), salt...))
+		arg := int64(5)
+		n := 5 + r.intn(4)
+		nodes := genNet(r, n, target)
+		for i, nd := range nodes {
+			switch (i + ni) % 5 {
+			case 0: // ignores the argument: genuine, lower seq
+				sq := int64(1 + (i+ni)%4)
+				nd.item, nd.genuine, nd.flavour = mkItem(pub, priv, salt, sq, fmt.Sprintf("old%d", sq)), true, "genuine-lower-seq"
+			case 1: // seq only
+				sq := int64(3 + i)
+				nd.item, nd.flavour = &lkItem{seq: &sq}, "seq-only"
+			case 2: // honours it: nothing newer, token only
+				nd.flavour = "honours-seq"
+			case 3: // newer genuine value (absent in half of the networks)
+				if ni%2 == 0 {
+					sq := int64(6 + i)
+					nd.item, nd.genuine, nd.flavour = mkItem(pub, priv, salt, sq, fmt.Sprintf("new%d", sq)), true, "genuine-newer"
+				}
+			case 4: // forged: claims exactly the caller's seq with an empty value and no signature
+				sq := arg
+				var k [32]byte
+				copy(k[:], pub)
+				nd.item, nd.flavour = &lkItem{k: &k, seq: &sq}, "caller-seq-no-value"
+			}
+		}
+		if ni == 5 {
+			for _, nd := range nodes { // nobody returns a value at all
+				if nd.genuine {
+					nd.item, nd.genuine = nil, false
+				}
+			}
+		}
+		add(lkCase{api: "get", sn: "ok", target: target, salt: salt, pub: pub, priv: priv, mutable: true, seqArg: &arg, nodes: nodes, start: []int{0, n - 1},
+			stopAt: -1, consStop: -1, desc: fmt.Sprintf("seq-arg-5-net%d", ni)})
 	}
 	// ---- D2: the right key, no seq ----
 	{
